@@ -37,12 +37,16 @@ void value_store::set_modified(bool set)
 }
 buffer *value_store::reserve(long count, const struct type_traits &traits)
 {
+	const array::content *old = _d.data();
 	size_t len;
 	if (count < 0) {
-		const array::content *buf = _d.data();
-		len = buf ? buf->length() : 0;
+		len = old ? old->length() : 0;
 	} else {
 		len = count * traits.size;
+		// content of same type is kept, also by the private copy of shared data
+		if (old && (old->content_traits() == &traits) && (old->length() > len)) {
+			len = old->length();
+		}
 	}
 	buffer *buf = mpt_array_reserve(&_d, len, &traits);
 	if (!buf || !mpt_array_slice(&_d, 0, len)) {
